@@ -113,10 +113,14 @@ def opC04Transcode (j : Json) : Except String Json := do
     return unsupported "template literal with a regex metacharacter"
   pure (Json.mkObj [("result", optJson transcodedJson (refTranscode fields opts msg))])
 
+def lowerSnakeB (s : Str) : Bool := s.all (fun c => c == '_' || c.isLower || c.isDigit)
+
 def opC04Call (j : Json) : Except String Json := do
   let m ← c04Method (← j.getObjVal? "method")
   let numeric ← (← j.getObjVal? "numeric").getBool?
   let req ← (← getArrL j "req").mapM c04Leaf
+  if m.fields.any (fun f => f.required && !lowerSnakeB f.name) then
+    return unsupported "required field whose name is not lower snake_case (to_snake_case is not modelled)"
   if (httpOptions m).any (fun b => templateUnsupported (scan b.uri)) then
     return unsupported "template literal with a regex metacharacter"
   if !(httpOptions m).isEmpty && (httpOpt m).isNone then
